@@ -950,3 +950,131 @@ Proof.
   unfold fn_ok. split; [exact a|]. split; [exact b|]. split; [|auto].
   intros x Hx. apply (W2 F x Ho Hx). rewrite Ej. apply Hused. destruct (f x Hx). assumption.
 Qed.
+
+(** * linked grammars with names that have no definition
+    The user's rules come first; behind them stand only rules made for actions, for undefined names and
+    for captures (Model/Link.v).  The dry pass also walks the slots of undefined names - they take labels
+    there and none in the real pass - but only behind the last user rule, where no function jumps. *)
+Section Linked.
+Variable g : grammar.
+Variable ast inline : bool.
+Variable asu : nat -> bool.
+Variable undef : nat -> bool.
+Variable cr : list bool * list nat.
+Variable fl : nat.
+Notation passu := (Emit.pass g ast inline asu undef cr fl).
+Notation pass0 := (Emit.pass g ast inline asu (fun _ : nat => false) cr fl).
+Notation once := (once inline cr).
+
+(** the real pass never looks at [undef] *)
+Lemma pass_real_undef u rs : forall r l, passu true u rs r l = pass0 true u rs r l.
+Proof.
+  induction rs as [|rb rs IH]; intros r l; [reflexivity|]. cbn [Emit.pass].
+  assert (E : (match rb with RNil => if undef r then true else true | _ => false end) = (match rb with RNil => if false then true else true | _ => false end)).
+  { destruct rb; try reflexivity. destruct (undef r); reflexivity. }
+  rewrite E. destruct (match rb with RNil => if false then true else true | _ => false end); [rewrite IH; reflexivity|].
+  destruct (negb (reached cr r)); [rewrite IH; reflexivity|].
+  destruct (once r && negb (l =? 0))%bool; [rewrite IH; reflexivity|].
+  destruct (rule_emit g ast once asu u fl r l) as [c l1]. rewrite IH. reflexivity.
+Qed.
+
+(** where a pass ends *)
+Fixpoint pend (real : bool) (u : nat -> bool) (rs : list rbody) (r l : nat) : nat :=
+  match rs with
+  | [] => l
+  | rb :: rs' =>
+      if (match rb with RNil => if undef r then real else true | _ => false end) then pend real u rs' (S r) l
+      else if negb (reached cr r) then pend real u rs' (S r) (S l)
+      else if (once r && negb (l =? 0))%bool then pend real u rs' (S r) (S l)
+      else pend real u rs' (S r) (snd (rule_emit g ast once asu u fl r l))
+  end.
+
+Lemma pass_app b u rs1 : forall rs2 r l,
+  passu b u (rs1 ++ rs2) r l = passu b u rs1 r l ++ passu b u rs2 (r + length rs1) (pend b u rs1 r l).
+Proof.
+  induction rs1 as [|rb rs1 IH]; intros rs2 r l; [cbn; rewrite Nat.add_0_r; reflexivity|].
+  cbn [app Emit.pass pend length].
+  destruct (match rb with RNil => if undef r then b else true | _ => false end).
+  { rewrite IH. cbn [app]. replace (S r + length rs1) with (r + S (length rs1)) by lia. reflexivity. }
+  destruct (negb (reached cr r)).
+  { rewrite IH. cbn [app]. replace (S r + length rs1) with (r + S (length rs1)) by lia. reflexivity. }
+  destruct (once r && negb (l =? 0))%bool.
+  { rewrite IH. cbn [app]. replace (S r + length rs1) with (r + S (length rs1)) by lia. reflexivity. }
+  destruct (rule_emit g ast once asu u fl r l) as [c l1]. cbn [snd]. rewrite IH. cbn [app].
+  replace (S r + length rs1) with (r + S (length rs1)) by lia. reflexivity.
+Qed.
+
+Lemma all_jumps_app a b : all_jumps (a ++ b) = all_jumps a ++ all_jumps b.
+Proof. unfold all_jumps. apply flat_map_app. Qed.
+
+(** on the user's rules the two passes agree, whatever [undef] says *)
+Lemma pass_bodies b u bs : forall r l, passu b u (map RBody bs) r l = pass0 b u (map RBody bs) r l.
+Proof.
+  induction bs as [|x bs IH]; intros r l; [reflexivity|]. cbn [map Emit.pass].
+  destruct (negb (reached cr r)); [rewrite IH; reflexivity|].
+  destruct (once r && negb (l =? 0))%bool; [rewrite IH; reflexivity|].
+  destruct (rule_emit g ast once asu u fl r l) as [c l1]. rewrite IH. reflexivity.
+Qed.
+
+(** functions of action rules and of slots without a body contain no goto *)
+Lemma rule_emit_nobody_jumps u n r ko :
+  (forall b, nth_error g r <> Some (RBody b)) -> jumps (fst (rule_emit g ast once asu u n r ko)) = [].
+Proof.
+  intros Hn. unfold rule_emit, ipush_emit.
+  destruct (nth_error g r) as [[b|k|]|] eqn:E; [exfalso; eapply Hn; reflexivity| | |]; cbn [fst];
+    rewrite !jumps_app; destruct ast, (u ko); reflexivity.
+Qed.
+
+Lemma pass_nobody_jumps b u rs : forall r l,
+  (forall i rb, nth_error rs i = Some rb -> nth_error g (r + i) = Some rb /\ forall x, rb <> RBody x) ->
+  all_jumps (passu b u rs r l) = [].
+Proof.
+  induction rs as [|rb rs IH]; intros r l H; [reflexivity|]. cbn [Emit.pass].
+  assert (Hrest : forall i rb0, nth_error rs i = Some rb0 -> nth_error g (S r + i) = Some rb0 /\ forall x, rb0 <> RBody x).
+  { intros i rb0 Hi. replace (S r + i) with (r + S i) by lia. apply (H (S i)). exact Hi. }
+  destruct (match rb with RNil => if undef r then b else true | _ => false end); [unfold all_jumps; cbn [flat_map app]; apply IH; exact Hrest|].
+  destruct (negb (reached cr r)); [unfold all_jumps; cbn [flat_map app]; apply IH; exact Hrest|].
+  destruct (once r && negb (l =? 0))%bool; [unfold all_jumps; cbn [flat_map app]; apply IH; exact Hrest|].
+  destruct (H 0 rb eq_refl) as [Hg Hnb]. rewrite Nat.add_0_r in Hg.
+  pose proof (rule_emit_nobody_jumps u fl r l) as J.
+  destruct (rule_emit g ast once asu u fl r l) as [c l1]. cbn [fst] in J.
+  unfold all_jumps. cbn [flat_map]. rewrite J; [|intros x Hx; rewrite Hg in Hx; inv Hx; eapply Hnb; reflexivity].
+  cbn [app]. apply IH. exact Hrest.
+Qed.
+
+End Linked.
+
+Theorem emit_all_wellformed_linked bs app ast inline asu undef :
+  (forall rb, In rb app -> forall x, rb <> RBody x) ->
+  Forall (fun o => match o with Some F => fn_ok F | None => True end) (emit_all (map RBody bs ++ app) ast inline asu undef).
+Proof.
+  intros Happ. set (g := map RBody bs ++ app). unfold emit_all.
+  set (cr := count_rules g). set (fl := fuel g).
+  set (dj := dry_jumps_of g ast inline asu undef cr fl).
+  set (used := used_of dj).
+  rewrite pass_real_undef.
+  assert (Hsuffix : forall i rb, nth_error app i = Some rb -> nth_error g (0 + length (map RBody bs) + i) = Some rb /\ forall x, rb <> RBody x).
+  { intros i rb Hi. split; [|apply Happ; eapply nth_error_In; eauto]. unfold g. cbn [Nat.add]. rewrite nth_error_app2 by lia.
+    replace (length (map RBody bs) + i - length (map RBody bs)) with i by lia. exact Hi. }
+  assert (Ej : all_jumps (Emit.pass g ast inline asu (fun _ => false) cr fl true used g 0 0) = dj).
+  { unfold dj, dry_jumps_of. fold (all_jumps (Emit.pass g ast inline asu undef cr fl false (fun _ => false) g 0 0)).
+    rewrite <- (pass_real_undef g ast inline asu undef cr fl used g 0 0).
+    unfold g at 2 4. rewrite !pass_app, !all_jumps_app.
+    rewrite (pass_nobody_jumps g ast inline asu undef cr fl true used app _ _ Hsuffix).
+    rewrite (pass_nobody_jumps g ast inline asu undef cr fl false (fun _ => false) app _ _ Hsuffix).
+    rewrite !app_nil_r.
+    rewrite (pass_bodies g ast inline asu undef cr fl true used bs 0 0).
+    rewrite (pass_bodies g ast inline asu undef cr fl false (fun _ => false) bs 0 0).
+    apply all_jumps_map. apply pass_same. }
+  assert (Hused : forall x, used x = true <-> In x dj).
+  { intros x. unfold used, used_of. rewrite existsb_exists. split.
+    - intros (y & Hy & E). apply Nat.eqb_eq in E. subst. exact Hy.
+    - intros H. exists x. split; [exact H|apply Nat.eqb_refl]. }
+  destruct (pass_wf g ast inline asu cr fl used g 0 0) as [W1 W2].
+  { intros j Hj. apply Hused. rewrite <- Ej. exact Hj. }
+  apply Forall_forall. intros o Ho. rewrite Forall_forall in W1. specialize (W1 o Ho).
+  destruct o as [F|]; [|exact I].
+  destruct W1 as (a & b & c & d & e & f & h).
+  unfold fn_ok. split; [exact a|]. split; [exact b|]. split; [|auto].
+  intros x Hx. apply (W2 F x Ho Hx). rewrite Ej. apply Hused. destruct (f x Hx). assumption.
+Qed.
